@@ -538,6 +538,28 @@ func (e *SpecEnv) call(n *SCall) Val {
 	case "key3":
 		a, b, c := e.evalInt(n.Args[0]), e.evalInt(n.Args[1]), e.evalInt(n.Args[2])
 		return scInt(app("key!3", a, b, c))
+	case "fieldarr":
+		// fieldarr(s, f): the raw SMT array of field f of a slice of structs (offset 0)
+		sl, ok := e.eval(n.Args[0]).(Sl)
+		if !ok || sl.Off != "0" {
+			e.fail("fieldarr: first argument must be a slice with offset 0")
+		}
+		fid, ok := n.Args[1].(*SIdent)
+		st, ok2 := sl.Arr.(St)
+		if !ok || !ok2 {
+			e.fail("fieldarr: slice of structs and a field name expected")
+		}
+		for i := 0; i < st.T.NumFields(); i++ {
+			if st.T.Field(i).Name() == fid.Name {
+				return st.F[i]
+			}
+		}
+		e.fail("fieldarr: no field %s", fid.Name)
+	case "mapval":
+		return e.eval(n.Args[0]).(Mp).Val
+	case "maphas":
+		m := e.eval(n.Args[0]).(Mp)
+		return Sc{m.Has, arrSort(m.KS, SBool)}
 	case "same":
 		return scBool(vEqRepr(e.eval(n.Args[0]), e.eval(n.Args[1])))
 	case "openFails":
